@@ -23,6 +23,14 @@ import (
 type Op struct {
 	Name string
 	Ctl  string // "" = transaction; "NB" next block, "RS" restart, "XI" export/import
+	// Aux: the transaction built by Tx is not delivered but only simulated ("simulate") or checked ("checktx") on the
+	// node; such a call must not change any observed store (the model is left unchanged)
+	Aux string
+	// Rollback marks ops that must leave no trace at all (a transaction whose later message fails, a simulated or
+	// checked transaction). They never change the observed stores, so state hashing alone would prune everything behind
+	// them; the explorer instead remembers which of them a path has used (at most Bounds.Rollbacks per path) and treats
+	// that as part of the state, so that code keeping state outside the store is still driven through them.
+	Rollback bool
 	// Tx builds the transaction against the current world/model (sequence numbers, DID proofs ...).
 	// Returning nil means "not applicable in this state" (the entry is skipped).
 	Tx func(w *world.World, m any) *world.TxSpec
@@ -92,6 +100,11 @@ type Bounds struct {
 	V        int // max number of control ops per path
 	Deadline time.Time
 	Workers  int
+	// NoFork: every transition is executed by sequential replay of the whole path on a fresh World (no forked deliver
+	// state). Slower, but sound for a tree that keeps state outside the store (fork/discard would leave traces there).
+	NoFork bool
+	// Rollbacks: max number of Rollback ops per path (default 1)
+	Rollbacks int
 }
 
 type Result struct {
@@ -218,6 +231,22 @@ func applyTx(sys *System, w *world.World, m any, op *Op, names []string, pre map
 	}
 	var vs []Violation
 	m2 := sys.Clone(m)
+	if op.Aux != "" {
+		bz, err := w.BuildTx(*spec)
+		if err == nil {
+			if op.Aux == "simulate" {
+				_, _, _ = w.App.Simulate(bz)
+			} else {
+				w.App.CheckTx(abci.RequestCheckTx{Tx: bz, Type: abci.CheckTxType_New})
+			}
+		}
+		for _, s := range sys.Stores {
+			if post := w.Dump(s); !world.EqualKVs(pre[s], post) {
+				vs = append(vs, Violation{Kind: "aux-changed-state", Sig: "aux-changed-state:" + op.Name, Msg: fmt.Sprintf("%s of a transaction changed store %s: %s", op.Aux, s, world.DiffKVs(pre[s], post)), Path: append([]string{}, names...)})
+			}
+		}
+		return m2, vs, "aux/" + op.Aux, true
+	}
 	res := w.Send(*spec)
 	st := &Step{W: w, Before: m, M: m2, Op: op, Spec: spec, Res: res, Pre: pre, viol: &vs, path: names}
 	sys.OnStep(st)
@@ -264,7 +293,16 @@ func Replay(sys *System, path []int, checkStates bool) (w *world.World, m any, v
 	for i, pi := range path {
 		op := &sys.Ops[pi]
 		if op.Ctl != "" {
-			w2, e := ApplyCtl(w, op.Ctl)
+			var w2 *world.World
+			var e error
+			func() {
+				defer func() {
+					if r := recover(); r != nil {
+						e = fmt.Errorf("block processing panicked: %v", r)
+					}
+				}()
+				w2, e = ApplyCtl(w, op.Ctl)
+			}()
 			if e != nil {
 				vs = append(vs, Violation{Kind: "ctl-failed", Sig: "ctl-failed:" + op.Ctl + ":" + firstLine(e.Error()), Msg: e.Error(), Path: names[:i+1]})
 				return w, m, vs, nil
@@ -343,6 +381,26 @@ func (e *explorer) dfs(w *world.World, m any, path []int, forced []int, d, v int
 			continue
 		}
 		if d == 0 {
+			continue
+		}
+		if e.b.NoFork {
+			if op.Tx(w, m) == nil {
+				continue
+			}
+			np := append(append([]int{}, path...), i)
+			w2, m2, vs, err := Replay(e.sys, np, false)
+			e.trans.Add(1)
+			if err != nil {
+				fmt.Fprintf(os.Stderr, "HARNESS ERROR: replay of %v diverged: %v\n", pathNames(e.sys, np), err)
+				os.Exit(2)
+			}
+			expanded = true
+			e.outcome("nofork")
+			if len(vs) > 0 {
+				e.record(vs)
+				continue
+			}
+			e.descend(w2, m2, np, forced, d-1, v)
 			continue
 		}
 		if pre == nil {
